@@ -91,7 +91,7 @@ def _stress(r, tier, seed, strict):
                 if dom[2] > 0 and plane in ('Stress', 'STRAIN'):
                     continue
                 fields = FIELDS_SHEAR if strict else FIELDS_FREE + FIELDS_SHEAR
-                for field in (fields * 3 if tier != 'quick' else [fields[k % len(fields)], fields[(k + 3) % len(fields)], fields[(k + 5) % len(fields)]]):
+                for field in (fields * 3 if tier != 'quick' else ([fields[k % 3]] if strict else [fields[k % len(fields)], fields[(k + 3) % len(fields)], fields[(k + 5) % len(fields)]])):
                     k += 1
                     run(r, cs.case_stress, dict(nx=dom[0], ny=dom[1], nz=dom[2], h=h, E=E, nu=nu, plane=plane, field=field, strict=strict, seed=seed + k))
 
@@ -116,7 +116,7 @@ def _energy(r, tier, seed, strict):
                 if dom[2] > 0 and plane in ('Stress', 'STRAIN'):
                     continue
                 fields = FIELDS_SHEAR if strict else ['rigid', 'normal', 'uniaxial'] + FIELDS_SHEAR
-                for field in (fields * 3 if tier != 'quick' else [fields[k % len(fields)], fields[(k + 2) % len(fields)]]):
+                for field in (fields * 3 if tier != 'quick' else ([fields[k % 3]] if strict else [fields[k % len(fields)], fields[(k + 2) % len(fields)]])):
                     k += 1
                     run(r, cs.case_energy, dict(nx=dom[0], ny=dom[1], nz=dom[2], h=h, E=E, nu=nu, plane=plane, field=field, xkind=xks[k % 3], strict=strict, seed=seed + k))
 
